@@ -78,6 +78,9 @@ impl Sys {
             ),
             f => panic!("flavour {f}"),
         };
+        // the contract's own address can be named as the new holder; nobody can authorize in its name
+        let mut names = names;
+        names.insert("self", c.clone());
         Sys { e, names, c, fl, lab, base }
     }
 
@@ -187,8 +190,27 @@ fn main() {
                 let base: u32 = if (run / 4) % 4 == 3 { *pick(&mut r, &[i32::MAX as u32 - 30, i32::MAX as u32 - 12, 3_000_000_000u32]) } else { 0 };
                 let mut sys = Sys::new(fl, (run / 2) % 2 == 1, base);
                 t.reset(reset_event(&sys, fl));
-                for _ in 0..len {
+                // every other run: at some point the holder offers the role to the contract's own address; whatever
+                // authorizations are then attached, nobody but that address could accept - and it cannot sign
+                let self_at = if run % 4 == 1 || run % 4 == 2 { r.gen_range(0..len.max(1)) } else { usize::MAX };
+                let mut script: Vec<Value> = vec![];
+                for i in 0..len {
                     let now = (seq(&sys.e) - sys.base) as i64;
+                    if i == self_at && sys.holder() != "none" {
+                        let h = sys.holder();
+                        let all: Vec<String> = ACCTS.iter().map(|x| x.to_string()).collect();
+                        script = vec![
+                            json!({"op": "offer", "new": "self", "until": now + 9, "auth": [h], "dt": 0}),
+                            json!({"op": "accept", "new": "none", "until": 0, "auth": if r.gen_bool(0.5) { vec![] } else { all.clone() }, "dt": 1}),
+                            json!({"op": "accept", "new": "none", "until": 0, "auth": all, "dt": 0}),
+                        ];
+                    }
+                    if !script.is_empty() {
+                        let op = script.remove(0);
+                        let ev = sys.step(&op);
+                        t.step(ev);
+                        continue;
+                    }
                     let dt = if r.gen_ratio(1, 25) { 3000 } else { *pick(&mut r, &[0i64, 0, 0, 1, 1, 2, 3, 7]) };
                     let holder = sys.holder();
                     // authorizers: mostly the interesting parties, sometimes arbitrary subsets
